@@ -455,6 +455,28 @@ class Gen:
             self.emit(ind, "sink(%s.N() + %s.M(1))" % (j, j))
             self.emit(ind, "%s.Inc(2)" % e)
             self.emit(ind, "sink(%s.N() + %s.a + %s.S.a)" % (j, e, e))
+            # assertions between interface types, nil and non-nil operands (comma-ok and type switch)
+            nj = self.fresh("nj")
+            self.emit(ind, "var %s J" % nj)
+            self.emit(ind, "if _, ok := %s.(I); ok {" % nj)
+            self.emit(ind + 1, "sink(-77)")
+            self.emit(ind, "} else {")
+            self.emit(ind + 1, "sink(77)")
+            self.emit(ind, "}")
+            self.emit(ind, "switch %s.(type) {" % nj)
+            self.emit(ind, "case I:")
+            self.emit(ind + 1, "sink(-78)")
+            self.emit(ind, "case nil:")
+            self.emit(ind + 1, "sink(78)")
+            self.emit(ind, "default:")
+            self.emit(ind + 1, "sink(79)")
+            self.emit(ind, "}")
+            self.emit(ind, "switch t := I(%s).(type) {" % j)
+            self.emit(ind, "case J:")
+            self.emit(ind + 1, "sink(t.N())")
+            self.emit(ind, "case any:")
+            self.emit(ind + 1, "sink(-80)")
+            self.emit(ind, "}")
         elif k == 2:
             self.emit(ind, "{")
             self.emit(ind + 1, "var is = []I{S{a: %s}, &S{a: %s}, V(%s & 1023)}" % (a, b, a))
